@@ -109,6 +109,9 @@ func (p placement) importPath(i, j int) string {
 // imported file so that imported types are really used.
 func defs(s *spec, i int) string {
 	var b strings.Builder
+	if s.hollow(i) {
+		return "// index file: imports only\n"
+	}
 	fmt.Fprintf(&b, "enum E%d {\n    A = 1;\n    B = 2;\n}\n", i)
 	if i%2 == 1 {
 		// a date (needs the Go package "time") that occurs in odd-numbered files only: never in the root
@@ -118,8 +121,21 @@ func defs(s *spec, i int) string {
 	}
 	fmt.Fprintf(&b, "message M%d {\n    1 -> S%d own;\n", i, i)
 	k := 2
+	used := map[int]bool{i: true}
 	for _, j := range s.Out[i] {
-		if j == i {
+		if used[j] {
+			continue
+		}
+		used[j] = true
+		if s.hollow(j) {
+			// an index file defines nothing itself; what it imports is visible through it
+			for _, l := range s.Out[j] {
+				if !used[l] && !s.hollow(l) {
+					used[l] = true
+					fmt.Fprintf(&b, "    %d -> S%d d%d;\n", k, l, l)
+					k++
+				}
+			}
 			continue
 		}
 		fmt.Fprintf(&b, "    %d -> S%d d%d;\n", k, j, j)
